@@ -174,8 +174,42 @@ class C03:
                 ctx.bad("R03.1", FILE, "GEOMETRY_MAPPING", "GEOMETRY_MAPPING = {...}",
                         f"the tag -> class table is not the identity on class names: {pairs}", mp.lineno)
         else:
-            ctx.bad("R03.1", FILE, "GEOMETRY_MAPPING", ast.unparse(mp)[:80],
-                    "GEOMETRY_MAPPING is not {geom.geom_type(): geom for geom in ALL_GEOMETRY_TYPES}", mp.lineno)
+            # another spelling (dict(zip(map(methodcaller("geom_type"), ALL), ALL)), a registry filled by a decorator ...): the value
+            # interpreted on the classes themselves -- the tag of a class is the default of its `type` field
+            verdict = None
+            try:
+                from sa.meval import Machine, _ClassRef
+                from sa.peval import Unknown
+                M = Machine(ctx.summ, ctx.index)
+                tag_of = {c.name: dflt_ for c in classes for dflt_ in [self._tag_default(c)] if dflt_ is not None}
+
+                class _GeoRef(_ClassRef):
+                    def geom_type(self_):
+                        return tag_of[self_.ci.name]
+                orig = M._global
+
+                def _global(t):
+                    v = orig(t)
+                    return _GeoRef(M, v.ci) if isinstance(v, _ClassRef) and v.ci.name in tag_of else v
+                M._global = _global
+                orig_getattr = M._getattr
+                M._getattr = lambda base, name: (base.geom_type if isinstance(base, _GeoRef) and name == "geom_type" else orig_getattr(base, name))
+                table = M._global(("global", f"{GEO}:GEOMETRY_MAPPING", "assign"))
+                if isinstance(table, dict) and all(isinstance(v, _ClassRef) for v in table.values()):
+                    got = {k: v.ci.name for k, v in table.items()}
+                    verdict = got == {t_: n_ for n_, t_ in tag_of.items()}
+            except Exception:  # noqa: BLE001
+                verdict = None
+            if verdict is True:
+                ctx.ok("R03.1", f"{FILE}:{mp.lineno} GEOMETRY_MAPPING", "tag -> class for every geometry class (the expression interpreted on the classes)")
+            elif verdict is False:
+                ctx.bad("R03.1", FILE, "GEOMETRY_MAPPING", ast.unparse(mp)[:80],
+                        "GEOMETRY_MAPPING does not map the tag of every geometry class to that class", mp.lineno)
+            elif isinstance(mp, (ast.Call, ast.Name, ast.Attribute, ast.BinOp)):
+                ctx.undec("R03.1", f"{FILE}:{mp.lineno} GEOMETRY_MAPPING", f"the table is built by an expression the rule cannot read: {ast.unparse(mp)[:80]}")
+            else:
+                ctx.bad("R03.1", FILE, "GEOMETRY_MAPPING", ast.unparse(mp)[:80],
+                        "GEOMETRY_MAPPING is not {geom.geom_type(): geom for geom in ALL_GEOMETRY_TYPES}", mp.lineno)
         s = ctx.summ.of_func(GEO, "BaseGeometry.geom_type")
         want = ("attr", ("sub", ("attr", ("param", "cls"), "model_fields"), ("const", "type")), "default")
         if len(s.returns) == 1 and s.returns[0].term == want:
@@ -375,7 +409,11 @@ class C03:
             vp = ("param", s.params[1] if len(s.params) > 1 else s.params[0])
             for lid, L in s.loops.items():
                 d = self.depth(L.iter, s, vp)
-                if d is None and not (spec.get('fixed') and L.kind == 'comp' and L.iter == vp):
+                if d is None and not (spec.get('fixed') and L.kind == 'comp' and L.iter == vp) and any(x[0] in ("lambda", "global") for x in walk(L.iter)):
+                    loops_ok = False  # a loop over a table of checks / functions zipped with the coordinates: another formulation
+                    ctx.undec("R03.2", f"{FILE}:{getattr(L.node, 'lineno', v.node.lineno)} {c.name}.{v.name}",
+                              f"the validator loops over `{show(L.iter)[:60]}` (functions paired with the coordinates), which the rule cannot read")
+                elif d is None and not (spec.get('fixed') and L.kind == 'comp' and L.iter == vp):
                     loops_ok = False
                     ctx.bad("R03.2", FILE, f"{c.name}.{v.name}", f"for {L.target_text} in {show(L.iter)[:40]}",
                             f"validator loop iterates {show(L.iter)[:40]}, not every element of the coordinates at that level: "
@@ -576,6 +614,11 @@ class C03:
                         witness={"point": p, "code": "accept", "spec": "reject"})
         self.check_normal_form(c, normalisers)
 
+    def _tag_default(self, c):
+        fi = self.ctx.models.field_map(c).get("type")
+        d = getattr(fi, "default", None) if fi is not None else None
+        return d.value if isinstance(d, ast.Constant) and isinstance(d.value, str) else None
+
     def _delegates(self, c, vals):
         """name of an in-package callable (function, method of the class, entry of a table, local function) that a validator of `c`
         calls with its coordinates (or a part of them) and that was NOT opened by the engine -- or None.  Where there is one, "no guard
@@ -601,10 +644,33 @@ class C03:
                     return show(f)[:60]
                 if f[0] == "builtin" and f[1] in ("map", "all", "any", "filter") and any(a[0] in ("global", "lambda") or (a[0] == "call" and a[1][0] in ("ext", "global")) for a in t[2]):
                     return show(t)[:60]
-        if not vals:
-            # no validator method at all: the checks may hang on the annotation (Annotated[..., AfterValidator(f)]) of an alias the
-            # field table did not resolve
-            return None
+        # a validator produced by a factory and bound at class level (`_validate_coordinates = _coordinates_validator("Point")`)
+        import ast as _ast0
+        try:
+            for k_ in c.mro():
+                if not k_.module.name.startswith("soundevent"):
+                    continue
+                for st in k_.node.body:
+                    if isinstance(st, _ast0.Assign) and isinstance(st.value, _ast0.Call) and isinstance(st.value.func, (_ast0.Name, _ast0.Attribute)):
+                        sy_ = ctx.index.resolve_expr(k_.module, st.value.func)
+                        if sy_ is not None and sy_.kind == "func" and sy_.module is not None and sy_.module.name.startswith("soundevent") \
+                                and any((isinstance(x_, _ast0.Name) and "validator" in x_.id) or (isinstance(x_, _ast0.Attribute) and "validator" in x_.attr)
+                                        for x_ in _ast0.walk(sy_.node)):
+                            return _ast0.unparse(st)[:60]
+        except Exception:  # noqa: BLE001
+            pass
+        # validators that hang on the annotation as the RESULT of a call (`AfterValidator(_validator(_check_time))`, a lambda, a partial):
+        # there is a validator, but not as a function the rule can read
+        import ast as _ast
+        try:
+            fi = ctx.models.field_map(c).get("coordinates")
+            metas = ctx.models.annotated_meta(c.module, fi.ann) if fi is not None else []
+        except Exception:  # noqa: BLE001
+            metas = []
+        for meta in metas:
+            if isinstance(meta, _ast.Call) and _ast.unparse(meta.func).split(".")[-1] in ("AfterValidator", "BeforeValidator", "PlainValidator", "WrapValidator") \
+                    and meta.args and not isinstance(meta.args[0], (_ast.Name, _ast.Attribute)):
+                return _ast.unparse(meta)[:60]
         return None
 
     # ------------------------------------------------------------------ R03.7 the JSON dump is the coordinates themselves
@@ -734,6 +800,9 @@ class C03:
                         site = f"{FILE}:{v.node.lineno} {c.name}.{v.name}"
                         if have >= need:
                             ctx.ok("R03.8", site, f"{show(x)[:40]}: length >= {need} established before")
+                        elif self._delegates(c, vals):
+                            ctx.undec("R03.8", site, f"`{show(x)[:40]}` needs a length of {need} established before; the validators of {c.name} that could "
+                                                     f"establish it are not functions the rule can read (`{self._delegates(c, vals)}`)")
                         else:
                             ctx.bad("R03.8", FILE, f"{c.name}.{v.name}", f"{show(x)[:50]} without an established length",
                                     f"{c.name}.{v.name} indexes `{show(x)[:60]}` although no earlier guard or validator has rejected inputs "
@@ -753,6 +822,11 @@ class C03:
     # ------------------------------------------------------------------ R03.3
     def check_normal_form(self, c: ClassInfo, normalisers):
         ctx = self.ctx
+        vals_ = [v for v in self.ctx.models.validators(c) if v.kind == "field"]
+        if c.name in ("BoundingBox", "LineString") and len(normalisers) == 0 and self._delegates(c, vals_):
+            ctx.undec("R03.3", f"{FILE}:{c.node.lineno} {c.name}", f"no validator of {c.name} that the rule can read rewrites the coordinates; its validators are "
+                                                                 f"`{self._delegates(c, vals_)}`, which the engine did not open")
+            return
         if c.name == "BoundingBox":
             if len(normalisers) != 1:
                 ctx.bad("R03.3", FILE, c.name, "normalising validator", f"{len(normalisers)} validators rewrite the coordinates (expected 1)", c.node.lineno)
@@ -889,10 +963,13 @@ class C03:
             return not any(r.term[0] == "call" and r.term[1] == SELF and peval(r.live, {mode: m2}) != ("const", False) for r in s.returns)
 
         def ev(t, mval):
+            from sa.sym import fold_sub as _fs
+            from .common import expand_new_helpers as _xh
             v = via(mval)
             if v is not None:
-                return peval(subst(t, {obj: v[1]}), {mode: v[2]})
-            return peval(t, {mode: mval})
+                return _fs(_xh(ctx, peval(subst(t, {obj: v[1]}), {mode: v[2]})))
+            # (helpers picked from a table of modes and applied -- `_type_key(_parse_json(obj))` -- are read where they are written)
+            return _fs(_xh(ctx, peval(t, {mode: mval})))
 
         expected = {c_.name: ("global", f"{GEO}:{c_.name}", "class") for c_ in self.classes()}
         for mval in ("json", "dict", "attributes"):
@@ -938,8 +1015,20 @@ class C03:
                 else:
                     good = tag[0] == "sub" and tag[2] == ("const", "type") and (tag[1] == obj if mval == "dict" else
                                                                                 any(x[0] == "call" and x[1] == ("ext", "json.loads") for x in walk(tag[1])))
+            def unopened(t_):
+                """an in-package helper the reference tree does not have, left as a call (it raises, or loops): what it returns is not
+                visible to this rule"""
+                from sa.sym import PINNED as _PIN
+                for x_ in walk(t_):
+                    if x_[0] == "call" and x_[1][0] == "global" and x_[1][2] == "func" and ":" in x_[1][1]:
+                        mn_, fn_ = x_[1][1].split(":")
+                        if fn_ not in _PIN.get(mn_, ()):
+                            return fn_
+                return None
             if good:
                 ctx.ok("R03.4", site, f"mode {mval!r}: class = GEOMETRY_MAPPING[object's own type tag]")
+            elif unopened(cls):
+                ctx.undec("R03.4", site, f"mode {mval!r}: the class is looked up with `{show(cls)[:70]}`; the helper `{unopened(cls)}` is not opened by the engine")
             else:
                 ctx.bad("R03.4", FILE, "geometry_validate", f"class in mode {mval!r}: {show(cls)[:60]}",
                         f"mode {mval!r}: the class handed to model_validate is {show(cls)[:80]}, not GEOMETRY_MAPPING[<the object's type>]",
@@ -949,6 +1038,8 @@ class C03:
                 req = [r for r in s.raises if peval(r.live, {mode: "json", ("call", ("builtin", "isinstance"), (obj, ("builtin", "str")), ()): False}) == ("const", True)]
                 if req and arg is not None and any(x[0] == "call" and x[1] == ("ext", "json.loads") for x in walk(arg)):
                     ctx.ok("R03.4", site, "mode 'json': non-str rejected, text parsed with json.loads")
+                elif arg is not None and unopened(arg):
+                    ctx.undec("R03.4", site, f"mode 'json': the text goes through the helper `{unopened(arg)}`, which the engine did not open")
                 else:
                     ctx.bad("R03.4", FILE, "geometry_validate", "json mode handling",
                             "mode 'json' does not (reject non-strings and) parse the text with json.loads before validation", s.node.lineno)
